@@ -88,6 +88,15 @@ class _Runner(_Processor):
             return
         await process_task
 
+    async def _hand_back(self, key: RoutingKeyT) -> None:
+        # reject a fetched but not started message; a cancellation must not interrupt the reject
+        reject = asyncio.ensure_future(self._conn.message_broker.reject(key))
+        try:
+            await asyncio.shield(reject)
+        except asyncio.CancelledError:
+            await reject
+            raise
+
     async def _run_consumer(
         self,
         consumer: ConsumerT,
@@ -95,16 +104,21 @@ class _Runner(_Processor):
     ) -> None:
         async for key, payload, params in consumer:
             actor = actors[key.topic]
-            if self._limiter.locked():
-                await consumer.pause()
-                await self._limiter.acquire()
-                await consumer.unpause()
-            else:
-                await self._limiter.acquire()
+            try:
+                if self._limiter.locked():
+                    await consumer.pause()
+                    await self._limiter.acquire()
+                    await consumer.unpause()
+                else:
+                    await self._limiter.acquire()
+            except asyncio.CancelledError:
+                # consumption was stopped while this message waited for a free slot: hand it back
+                await self._hand_back(key)
+                raise
             if self._tasks_started >= self.max_tasks:
                 # the limit was reached while this message was being fetched: hand it back untouched
                 self._limiter.release()
-                await self._conn.message_broker.reject(key)
+                await self._hand_back(key)
                 break
             self._tasks_started += 1
             t = asyncio.create_task(self._process_with_event(actor, key, payload, params))
@@ -146,6 +160,7 @@ class _Runner(_Processor):
                 self._health_check_server.health_status = HealthCheckStatus.UNHEALTHY
         if self.stop_consume_event.is_set():
             consume_task.cancel()
+            await asyncio.gather(consume_task, return_exceptions=True)
         await consumer.pause()
         return consumer
 
